@@ -35,7 +35,7 @@ def scan_trusted(gen):
     text = gen.lines
     for i, ln in enumerate(text):
         code = ln.split('//')[0]
-        if 'proved-by-cases' in ln:
+        if 'proved-by-cases' in ln or 'proved-in-unit' in ln:
             continue
         for m in TRUST_PAT.finditer(code):
             # name the item: look ahead for the next `fn name` / `struct name` / `type`
@@ -86,7 +86,7 @@ def template_functions(gen):
         if gen.origin[i].get('kind') != 'template':
             continue
         mm = extract.LABEL.search(ln)
-        if mm and ln.strip().startswith('//'):
+        if mm and ln.strip().startswith('//') and not gen.origin[i].get('assumed'):
             pending += [x.strip() for x in mm.group(1).split(',')]
             continue
         code = masked[line_starts[i]:line_starts[i + 1]]
